@@ -446,17 +446,74 @@ def int_to_bytes(I, x, args, kw):
     return SBytes(R.Rope([R.full_atom(t)]))
 
 
+_STRUCT_SIZES = {"B": (1, False), "b": (1, True), "H": (2, False), "h": (2, True), "I": (4, False), "i": (4, True), "L": (4, False), "l": (4, True),
+                 "Q": (8, False), "q": (8, True)}
+
+
+def _struct_fields(fmt):
+    """(byte order, [(size, signed), ...]) for formats made of an explicit byte-order prefix and fixed-size integer codes
+    (standard sizes, no padding). A bare "B"/"b" sequence needs no prefix. Anything else is outside the model."""
+    if not isinstance(fmt, str) or not fmt:
+        raise OutOfReach(f"struct format {fmt!r}")
+    order = None
+    body = fmt
+    if fmt[0] in "<>!=":
+        order = "little" if fmt[0] == "<" else "big"
+        body = fmt[1:]
+        if fmt[0] == "=":
+            order = "little"
+    fields = []
+    for ch in body:
+        if ch not in _STRUCT_SIZES:
+            raise OutOfReach(f"struct format {fmt!r}")
+        fields.append(_STRUCT_SIZES[ch])
+    if order is None:
+        if any(sz != 1 for sz, _ in fields):
+            raise OutOfReach(f"struct format {fmt!r} (native alignment)")
+        order = "little"
+    return order, fields
+
+
 def b_struct_unpack(I, args, kw):
     fmt, data = args
-    if fmt != "B":
-        raise OutOfReach(f"struct format {fmt!r}")
+    order, fields = _struct_fields(fmt)
+    total = sum(sz for sz, _ in fields)
     n = I.bytes_len(data)
     if isinstance(n, int):
-        if n != 1:
+        if n != total:
             I.raise_("struct.error")
-    elif I.branch(Z(n) != 1):
+    elif I.branch(Z(n) != total):
         I.raise_("struct.error")
-    return (R.to_int(I.ctx, I.rope_of(data), "little"),)
+    rope = I.rope_of(data)
+    out, off = [], 0
+    for sz, signed in fields:
+        out.append(R.to_int(I.ctx, R.slice_norm(I.ctx, rope, off, off + sz), order, signed))
+        off += sz
+    return tuple(out)
+
+
+def b_struct_pack(I, args, kw):
+    fmt, vals = args[0], args[1:]
+    order, fields = _struct_fields(fmt)
+    if len(vals) != len(fields):
+        I.raise_("struct.error")
+    rope = R.Rope()
+    for (sz, signed), v in zip(fields, vals):
+        if not I.is_intlike(v):
+            I.raise_("struct.error")
+        v = I.as_int(v)
+        lo, hi = (-(256**sz) // 2, 256**sz // 2) if signed else (0, 256**sz)
+        if isinstance(v, int):
+            if not lo <= v < hi:
+                I.raise_("struct.error")
+            rope = rope + R.Rope.lit(v.to_bytes(sz, order, signed=signed))
+            continue
+        if I.branch(simp(z3.Or(Z(v) < lo, Z(v) >= hi))):
+            I.raise_("struct.error")
+        if signed:
+            v = simp(z3.If(Z(v) < 0, Z(v) + 256**sz, Z(v)))
+        rope = rope + R.Rope([R.IntSeg(v, sz, order, True)])
+    return SBytes(rope)
 
 
 def b_math_ceil(I, args, kw):
@@ -563,6 +620,7 @@ BUILTINS = {
     "max": b_max,
     "int.from_bytes": b_from_bytes,
     "struct.unpack": b_struct_unpack,
+    "struct.pack": b_struct_pack,
     "math.ceil": b_math_ceil,
     "uuid.UUID": b_uuid,
     "object.__setattr__": b_object_setattr,
@@ -598,6 +656,18 @@ def call_method(I, obj, name, args, kw):
             return int_to_bytes(I, obj, args, kw)
         if name == "bit_length" and isinstance(obj, int):
             return obj.bit_length()
+        if name == "bit_length":
+            # uninterpreted BITLEN(x) with what is needed about it: it is 0 exactly for 0, and the byte count ceil(BITLEN/8) is the
+            # minimal width of |x| in base 256 (POW256 is the uninterpreted 256**n)
+            x = I.as_int(obj)
+            if I.branch(Z(x) < 0):
+                raise OutOfReach("bit_length of a negative symbolic integer")
+            f = z3.Function("BITLEN", z3.IntSort(), z3.IntSort())
+            bl = f(Z(x))
+            nb = I.ctx.div(bl + 7, 8)
+            I.ctx.assume(z3.And(bl >= 0, (bl == 0) == (Z(x) == 0), POW256(Z(nb)) >= 1, Z(x) < POW256(Z(nb)),
+                                z3.Implies(Z(nb) >= 1, z3.And(Z(x) >= POW256(Z(nb) - 1), POW256(Z(nb) - 1) >= 1))))
+            return bl
         raise OutOfReach(f"int.{name}")
     if isinstance(obj, (SBytes, SView)):
         return bytes_method(I, obj, name, args, kw)
